@@ -20,7 +20,7 @@ import itertools
 import numpy as np
 from hypothesis import strategies as st
 
-from vp.pbt import SubCheck
+from vp.pbt import SubCheck, represent
 
 PROPERTY = "C13"
 RULE = ("cases = (class Data|ClimateData, observable T 1..36 x N 1..8 of "
@@ -166,12 +166,14 @@ def oracle_history(case, rec):
             rec.label("constructor_window")
             nontrivial |= _removes(ti, si)
     if climate:
-        ok, data = rec.call("construct", ClimateData, observable=obs.copy(),
+        ok, data = rec.call("construct", ClimateData,
+                            observable=represent(obs.copy(), f32=False),
                             grid=grid, time_cycle=cycle, anomalies=flag,
                             window=None if init is None else dict(init),
                             silence_level=3)
     else:
-        ok, data = rec.call("construct", Data, observable=obs.copy(),
+        ok, data = rec.call("construct", Data,
+                            observable=represent(obs.copy(), f32=False),
                             grid=grid,
                             window=None if init is None else dict(init),
                             silence_level=3)
